@@ -162,6 +162,18 @@ fn one_case(rep: &mut Report, args: &Args, stream: &str, case: u64, size: SizeCl
         return;
     };
     let want = tick::outcome_tuple(&canon);
+    if let Some(path) = args.extra.get("digests") {
+        // cross-lane differential: one line per case, compared by the lanes driver
+        let mut h = blake3::Hasher::new();
+        for (k, v) in &want {
+            h.update(k.as_bytes());
+            h.update(v.as_bytes());
+        }
+        use std::io::Write;
+        if let Ok(mut f) = std::fs::OpenOptions::new().create(true).append(true).open(path) {
+            let _ = writeln!(f, "{stream} {case} {}", h.finalize().to_hex());
+        }
+    }
     let n_acc = plan.accepted.iter().filter(|a| **a).count();
     let n_rej = plan.accepted.len() - n_acc;
     rep.count("ticks_committed", 1);
@@ -304,11 +316,16 @@ pub fn run(args: &Args) -> i32 {
     if let Some(p) = &args.replay { return replay(args, p, rep); }
     let budget = Budget::for_tier(args.tier, 150.0, 1500.0);
     let jobs = args.jobs.max(1);
-    let n_small = args.by_tier(320u64, 16_000);
-    let n_medium = args.by_tier(80u64, 4_000);
-    let n_thresh = args.by_tier(4u64, 120);
-    let n_large = args.by_tier(2u64, 80);
-    let n_exh = args.by_tier(6u64, 200);
+    // secondary build lanes (delta_validate merge path, release) run a third of
+    // the workload; the lanes driver compares their per-case digests with the main lane
+    let lane = args.extra.get("lane").cloned().unwrap_or_default();
+    let div = if lane.is_empty() || lane == "fastdbg" { 1 } else { 3 };
+    rep.set("lane", json!(if lane.is_empty() { "fastdbg" } else { lane.as_str() }));
+    let n_small = args.by_tier(320u64, 16_000) / div;
+    let n_medium = args.by_tier(80u64, 4_000) / div;
+    let n_thresh = args.by_tier(4u64, 120) / div;
+    let n_large = args.by_tier(2u64, 80) / div;
+    let n_exh = args.by_tier(6u64, 200) / div;
     let variants = args.by_tier(6usize, 8);
     let b = budget.slice(0.45);
     run_shards(&mut rep, jobs, jobs, |shard, rep| {
